@@ -391,7 +391,8 @@ def gen_csv(rnd):
         return body + rnd.choice('qxz') + ''.join(rnd.choice('abqxz ,".') for _ in range(rnd.randint(0, 3)))
 
     def rdt():
-        return datetime.datetime(rnd.randint(1971, 2090), rnd.randint(1, 12), rnd.randint(1, 28), rnd.randint(0, 23), rnd.randint(0, 59), rnd.randint(0, 59),
+        # (from 1987: Asia/Kathmandu moved from +05:30 to +05:45 on 1986-01-01, so 1986-01-01T00:00 does not exist there)
+        return datetime.datetime(rnd.randint(1987, 2090), rnd.randint(1, 12), rnd.randint(1, 28), rnd.randint(0, 23), rnd.randint(0, 59), rnd.randint(0, 59),
                                  rnd.choice([0, 123000, 999000]))
     rows = []
     for _ in range(rnd.randint(1, 8)):
